@@ -692,21 +692,32 @@ def owner_first(ctx):
 
 
 def authoritative(ctx):
+    # read under the case `authoritative and the shape is an estimate`
+    # (sa/symcase.py): whatever all_ranks is, the answer is None before
+    # anything else is computed -- one shared guard or one per path
+    from .. import symcase
     f = ctx.method("Rank", "getShape")
-    n = 0
-    for st in f.own_nodes():
-        if isinstance(st, ast.If):
-            cj = {(text(t).replace(" ", ""), pol) for t, pol in pat.conjuncts(st.test)}
-            if cj == {("authoritative", True),
-                      ("self._attrs.getEstimatedShape()", True)}:
-                if any(isinstance(b, ast.Return) and text(b.value) == "None"
-                       for b in st.body):
-                    n += 1
-                    ctx.ok("C14.R4", f, st, "estimated shape is not authoritative")
-    if n < 2:
+
+    def decide(t):
+        tt = text(t).replace(" ", "")
+        if tt in ("authoritative", "self._attrs.getEstimatedShape()"):
+            return True
+        return None
+    outs = symcase.Evaluator(ctx, decide).run(f)
+    good = bool(outs) and all(
+        o.returned and not o.opaque and not o.stores and
+        isinstance(o.ret_stmt, ast.Return) and
+        (o.ret is None or text(o.ret) == "None") for o in outs)
+    if good:
+        for o in outs:
+            ctx.ok("C14.R4", f, o.ret_stmt, "estimated shape is not authoritative")
+    else:
+        bad = [o for o in outs if not (o.returned and not o.opaque and
+                                       (o.ret is None or text(o.ret) == "None"))]
         ctx.bad("C14.R4", f, f.node, "Rank.getShape(authoritative=True) no "
                 "longer returns None for an estimated shape on both the "
-                "single-rank and the all-ranks path (%d of 2 guards found)" % n,
+                "single-rank and the all-ranks path (%d of %d ways through it "
+                "give something else)" % (len(bad), len(outs)),
                 text_="Rank.getShape authoritative")
 
 
